@@ -96,6 +96,15 @@ def gen_x(rng, n, cls):
         s = rng.choice([1e-4, 2e-4, 1e-3, 1e-2])
         a = rng.randint(-3, 0)
         return [s * (a + i) for i in range(n)]
+    if cls == 'zerosum':
+        # abscissae that sum to exactly 0.0 without being symmetric about 0 (small integers and halves: exact)
+        while True:
+            xs = [float(rng.randint(-8, 8)) / rng.choice([1, 2]) for _ in range(n - 1)]
+            last = -sum(xs)
+            xs.append(last)
+            if sum(xs) == 0.0 and sorted(xs) != sorted(-x for x in xs) and len(set(xs)) >= min(n, 4):
+                rng.shuffle(xs)
+                return xs
     if cls == 'largescale':
         s = rng.choice([1e2, 1e3])
         return [s * rng.uniform(-3, 3) for _ in range(n)]
@@ -113,7 +122,7 @@ def gen_y(rng, xs):
     return ys
 
 
-XCLASSES = ['grid', 'uniform', 'clustered', 'shifted', 'negative', 'repeated', 'smallint', 'tinyscale', 'largescale']
+XCLASSES = ['grid', 'uniform', 'clustered', 'shifted', 'negative', 'repeated', 'smallint', 'tinyscale', 'largescale', 'zerosum']
 
 
 def data(rng):
